@@ -14,7 +14,7 @@ def main(tier):
                 "inversion/passthru/stop/non-LF terminator; distinct by (input, config, strategy, path, capacity, history).")
     chk.assumptions = ["matcher abstracted to 'line contains byte m' (the searcher only asks whether a line matches)",
                        "bounds: see specs/search/C03_*.cfg", "TLC fingerprint collisions improbable"]
-    cfgs = ["C03_quick", "C03_terms"] if tier == "quick" else ["C03_quick", "C03_terms", "C03_deep"]
+    cfgs = ["C03_quick", "C03_terms", "C03_nul"] if tier == "quick" else ["C03_quick", "C03_terms", "C03_nul", "C03_deep"]
     for c in cfgs:
         sc.explore(chk, c, variants=("as_is", "onebyte", "maxread", "mmap"), timeout=3000)
     chk.exhaustive = True
